@@ -98,6 +98,8 @@ def gen_flap_family(rng):
             cur += rng.choice([1, 300, 1000, 2500, rng.randint(1, 6000)])
             ops.append([cur, "unregister", i])
             cur += rng.choice([150, 400, 1000, 1100, 2000, rng.randint(101, 5000)])
+            if rng.random() < 0.3:
+                svcs[i]["reuse"] = True
             ops.append([cur, "register", i])
             cur += 350
     ops.sort(key=lambda o: (o[0], o[1]))
@@ -269,6 +271,17 @@ def gen_vocab_family(rng):
         ops.append(browse_op(rng, hosts[2]["up"] + rng.randint(0, 2000), 2, rng.choice([rng.randrange(ntypes), list(range(ntypes))]), tcase))
     if rng.random() < 0.4:
         ops.append(browse_op(rng, rng.randint(0, 500), 0, list(range(ntypes)), tcase))
+    if rng.random() < 0.5:
+        # a service goes to a new revision and back to an earlier one (TXT rev=1 -> rev=2 -> rev=1), each step long enough after the
+        # other for the cache-flush rule to apply (> 1 s + the three announcements); browsers that start later resolve from the cache
+        i = rng.randrange(nsvc)
+        t1 = 1000 + rng.choice([200, 600, rng.randint(0, 1500)])
+        t2 = t1 + rng.choice([1800, 2500, 4000])
+        ops.append([t1, "update", i, {"rev": 1}])
+        ops.append([t2, "update", i, {"rev": 0}])
+        if rng.random() < 0.4:
+            ops.append([t2 + rng.choice([1800, 3000]), "update", i, {"rev": 1}])
+        ops.append(browse_op(rng, t2 + rng.choice([5000, 9000, 30000, 60000]), rng.randrange(nh), svcs[i]["ty"], tcase))
     k = rng.random()
     if k < 0.3:
         ops.append([late + rng.choice([2000, 6000, rng.randint(500, 9000)]), "unregister", rng.randrange(nsvc)])
@@ -382,6 +395,8 @@ def gen_case(rng, idx=0, long_p=0.05):
                     last_reg_on_host[owner] = max(last_reg_on_host.get(owner, 0), cur)
             else:
                 cur += rng.choice([0, 1, 100, 350, 1001, rng.randint(0, 1500)])  # (gap >= 1 already added)
+                if rng.random() < 0.4:
+                    svcs[-1]["reuse"] = True  # re-register the same ServiceInfo object with a changed port
                 ops.append([cur, "register", s])
                 last_reg_on_host[owner] = max(last_reg_on_host.get(owner, 0), cur)
                 registered = True
@@ -709,8 +724,8 @@ def run_case(case):
         return ServiceInfo(spell_type(s["ty"], k), svc_name(i, s["ty"], k), 8000 + 10 * i + ver, addresses=addrs,
                            server=host_name(s["owner"], k), properties=props, **kw)
 
-    def advertise(i, info):
-        versions[i].append({"t": now(), "port": info.port, "server": info.server, "txt": info.text.hex(),
+    def advertise(i, info, kind):
+        versions[i].append({"t": now(), "kind": kind, "port": info.port, "server": info.server, "txt": info.text.hex(),
                             "addrs": sorted(a.hex() for a in all_addresses(info))})
 
     async def host_up(i):
@@ -780,7 +795,13 @@ def run_case(case):
                 skipped.append(op)
                 return
             ver = len(versions[i])
-            info = make_info(i, ver)
+            if cur_info[i] is not None and svcs[i].get("reuse"):
+                # the application registers the SAME ServiceInfo object again after changing a plain attribute: the records the
+                # object cached for its previous registration must not be what it announces and answers with now
+                info = cur_info[i]
+                info.port = 8000 + 10 * i + ver
+            else:
+                info = make_info(i, ver)
             sstate[i] = "registering"
             ev = [now(), "reg?", i]
             trace.append(ev)
@@ -795,18 +816,21 @@ def run_case(case):
             ev.append(now())
             sstate[i] = "registered"
             cur_info[i] = info
-            advertise(i, info)
+            advertise(i, info, "reg")
         elif kind == "update":
             if sstate[i] != "registered":
                 skipped.append(op)
                 return
-            if len(op) > 3 and isinstance(op[3], dict):  # update with new TTLs: [t, "update", i, {"other_ttl": ..}]
-                svcs[i].update(op[3])
-            info = make_info(i, len(versions[i]))
+            rev = None
+            if len(op) > 3 and isinstance(op[3], dict):  # update with new TTLs / an explicit revision: [t, "update", i, {"other_ttl": .., "rev": r}]
+                svcs[i].update({k: v for k, v in op[3].items() if k != "rev"})
+                rev = op[3].get("rev")
+            # "rev": the port / TXT of revision r instead of a fresh one -- an application that goes back to an earlier value
+            info = make_info(i, len(versions[i]) if rev is None else rev)
             trace.append([now(), "upd", i])
             api_times.append(now())
             cur_info[i] = info
-            advertise(i, info)
+            advertise(i, info, "upd")
             await zc.async_update_service(info)
         elif kind == "unregister":
             if sstate[i] != "registered":
@@ -1394,7 +1418,11 @@ def oracle(case, obs):
         # replaced by an `update` stays acceptable for UPDATE_GRACE_MS after the update call (the three announcements of the new
         # records leave within 450 ms, arrive within 100 ms more, and replace the cached ones: cache-flush bit); an older one is wrong
         allv = obs["versions"][s]
-        vs = [x for k, x in enumerate(allv) if x["t"] <= lk["t1"] and (k + 1 == len(allv) or allv[k + 1]["t"] + UPDATE_GRACE_MS >= lk["t0"])]
+        # (only an `update` has a grace: a version that was unregistered -- Removed -- before the next registration is never acceptable
+        # for a lookup from the new registration's Added)
+        vs = [x for k, x in enumerate(allv) if x["t"] <= lk["t1"] and (
+            k + 1 == len(allv) or allv[k + 1]["t"] > lk["t1"]
+            or (allv[k + 1].get("kind", "upd") == "upd" and allv[k + 1]["t"] + UPDATE_GRACE_MS >= lk["t0"]))]
         # addresses belong to the host name: the lookup returns the service's own addresses, possibly together with addresses that
         # other services advertised for the same host name
         host_addrs = {ad for vv in obs["versions"] for x in vv if x["server"].lower() == (lk["server"] or "").lower() for ad in x["addrs"]}
@@ -1451,15 +1479,27 @@ def lookup_wrong_cause(case, obs, lk, vs, allv):
         k = old[-1]
         seen = records_seen(obs, bh, lk["t1"])
 
-        def ver_of(r):
+        def ver_of(t, r):
+            # (a version can repeat the content of an earlier one: a record handed over at t can only be of a version advertised by t)
             if isinstance(r, DNSService) and r.name.lower() == name:
-                return [j for j, x in enumerate(allv) if x["port"] == r.port]
+                return [j for j, x in enumerate(allv) if x["port"] == r.port and x["t"] <= t]
             if isinstance(r, DNSText) and r.name.lower() == name:
-                return [j for j, x in enumerate(allv) if x["txt"] == r.text.hex()]
+                return [j for j, x in enumerate(allv) if x["txt"] == r.text.hex() and x["t"] <= t]
             return []
 
-        first_newer = min([t for (t, r) in seen if r.ttl > 0 and any(j > k for j in ver_of(r))] or [None], key=lambda v: (v is None, v))
-        if first_newer is not None and any(r.ttl > 0 and k in ver_of(r) and t >= first_newer and t + 1000 * r.ttl > lk["t1"] for (t, r) in seen):
+        def newer_only(t, r):  # a record that tells a later version from version k
+            v = ver_of(t, r)
+            return any(j > k for j in v) and k not in v
+
+        def old_only(t, r):
+            v = ver_of(t, r)
+            return k in v and not any(j > k for j in v)
+
+        first_newer = min([t for (t, r) in seen if r.ttl > 0 and newer_only(t, r)] or [None], key=lambda v: (v is None, v))
+        # ... and only while old records can still be on their way: sent before the update that superseded them, or queued before it
+        # and multicast within the responder's answer window after it (D20, a finding of C03 / C08), plus 100 ms on the link
+        if first_newer is not None and any(r.ttl > 0 and old_only(t, r) and first_newer <= t <= allv[k + 1]["t"] + CFG["respAfter"] + CFG["maxDelay"]
+                                           and t + 1000 * r.ttl > lk["t1"] for (t, r) in seen):
             return "superseded-version-overtook-the-update-on-the-link"
         return ""
     if lk["txt"] == "" and all(x["txt"] for x in allv) and any(
@@ -1868,7 +1908,7 @@ def run_inner(ctx):
         sends_ptr = sorted({x[1] for x in tg if any(it[0] == "p" for it in _items_of(base, x[1]))})
         sends_q = sorted({x[1] for x in tg if any(it[0] == "q" for it in _items_of(base, x[1]))})
         nsend = base["nsend"]
-        if i < n_sweep:
+        if i < n_sweep and n <= 800:  # (a many-services scenario has thousands of deliveries: sampled like the rest)
             cand = list(range(n))
             dcand = [(d, m) for d in range(nsend) for m in ("all", "remote")]
             res.count("scenarios-with-every-single-drop-swept")
